@@ -59,11 +59,29 @@ def module_descs(draw, with_apps=True, max_depth=3, sym_pool=('a', 'b', 'c', 'A'
             mname, i = draw(st.sampled_from(all_axioms))
             claims.append({'kind': 'axiom', 'module': mname, 'index': i})
         elif with_apps:
-            kind = draw(st.sampled_from(['app'] * 7 + ['univgen'] * 2 + ['quant'] * 2 + ['dyninst'] * 2 + (['taut'] if allow_taut else []))) if rich else 'app'
-            if kind in ('app', 'univgen'):
+            kind = draw(st.sampled_from(['app'] * 7 + ['univgen'] * 2 + ['quant'] * 2 + ['dyninst'] * 2 + ['appinst'] * 2 + (['taut'] if allow_taut else []))) if rich else 'app'
+            if kind in ('app', 'univgen', 'appinst'):
                 app = S.draw_app(draw, cfg, depth=draw(st.integers(1, 2)), entries=S.light_catalogue(), arg_depth=1)
                 c = {'kind': kind, 'app': app.to_json()}
                 if kind == 'univgen': c['var'] = draw(st.sampled_from(cfg.ids))
+                if kind == 'appinst':
+                    # a lemma application (whose arguments may carry pending substitutions with schematic plugs) instantiated
+                    # further through dynamic_inst, by admissible values: a metavariable with the merged constraints or a
+                    # constraint-respecting concrete pattern
+                    _, _, defs = H.pool()
+                    nodes = {}
+                    for nd in R.metavar_nodes(gens.expand_sugared(app.conclusion(), defs)):
+                        nodes.setdefault(nd[1], []).append(nd)
+                    delta = []
+                    for k in draw(st.lists(st.sampled_from(cfg.ids), min_size=1, max_size=2, unique=True)):
+                        nds = nodes.get(k, [])
+                        merged = R.MV(k, *[tuple(sorted({x for nd in nds for x in nd[i]})) for i in (2, 3, 4, 5)])
+                        if draw(st.booleans()):
+                            val = R.MV(draw(st.sampled_from(cfg.ids)), *merged[2:6])
+                        else:
+                            val = gens.draw_admissible_concrete(draw, merged, cfg, 1)
+                        delta.append([k, gens.sugared_to_json(val)])
+                    c['delta'] = delta
                 claims.append(c)
             elif kind == 'dyninst':
                 # a primitive schema instantiated through dynamic_inst with the keys in an arbitrary insertion order
@@ -146,7 +164,7 @@ def build_module(desc):
     create(desc)
     link(desc)
     root = built.by_name[desc['name']]
-    apps = [S.App.from_json(c['app']) for c in desc.get('claims', []) if c['kind'] in ('app', 'univgen')]
+    apps = [S.App.from_json(c['app']) for c in desc.get('claims', []) if c['kind'] in ('app', 'univgen', 'appinst')]
     prop = taut = None
     if apps or any(c['kind'] in ('taut', 'quant', 'dyninst', 'pnc') for c in desc.get('claims', [])):
         need_taut = any(c['kind'] == 'taut' for c in desc.get('claims', [])) or any(n in {e.name for e in S.catalogue() if e.module == 'taut'} for a in apps for n in a.entries())
@@ -187,6 +205,8 @@ def build_module(desc):
             sub.prop = prop
             th = Substitution.universal_gen(sub, next(it).build(root, prop, taut), P.EVar(c['var']))
             th = _rebind(root, th)
+        elif c['kind'] == 'appinst':
+            th = root.dynamic_inst(next(it).build(root, prop, taut), {k: gens.build_repo(gens.sugared_from_json(v, by_label)) for k, v in c['delta']})
         elif c['kind'] == 'dyninst':
             th = root.dynamic_inst(getattr(root, c['schema'])(), {k: gens.build_repo(gens.sugared_from_json(v, by_label)) for k, v in c['delta']})
         elif c['kind'] == 'quant':
